@@ -2,6 +2,8 @@ package worlds
 
 import (
 	"bufio"
+	"bytes"
+	"compress/gzip"
 	"context"
 	"crypto/tls"
 	"errors"
@@ -36,6 +38,7 @@ type c11Case struct {
 	Cap         int         `json:"cap"`
 	Clients     []c11Client `json:"clients"`
 	DrainS      int         `json:"drain_s"`     // shutdown timeout in seconds: 30 is the shipped default, 0 means "no limit"
+	GzipReply   bool        `json:"gzip_reply"`  // the origin compresses its replies when asked to (the proxy's transport asks when the client did not)
 	UptimeS     int         `json:"uptime_s"`    // how long the proxy has been serving before the first client shows up
 	ShutdownMs  int         `json:"shutdown_ms"` // earliest time of the shutdown request; the scheduler may fire it at any later step
 	WOne, WRand int
@@ -70,6 +73,7 @@ func genC11(t *tape.Tape, tier string) any {
 	c.ShutdownMs = []int{0, 10, 500, 2000}[t.Pick(3, 2, 2, 1)]
 	c.DrainS = []int{30, 0, 90}[t.Pick(5, 2, 1)]
 	c.UptimeS = []int{0, 45, 4000}[t.Pick(4, 1, 1)]
+	c.GzipReply = t.Chance(1, 4)
 	c.WOne = t.Pick(6, 2, 1)
 	c.WRand = t.Pick(2, 4, 2) * 2
 	return c
@@ -151,6 +155,16 @@ func runC11(env *core.Env, ci any) {
 				time.Sleep(d)
 			}
 			body := streamBytes(tokenSeed(tok), 0, bodyOf[tok])
+			if c.GzipReply && len(body) > 0 && len(m.Get("Accept-Encoding")) > 0 && strings.Contains(m.Get("Accept-Encoding")[0], "gzip") {
+				var zb bytes.Buffer
+				zw := gzip.NewWriter(&zb)
+				zw.Write(body)
+				zw.Close()
+				fmt.Fprintf(conn, "HTTP/1.1 200 OK\r\nX-Token: %s\r\nContent-Encoding: gzip\r\nContent-Length: %d\r\n\r\n", tok, zb.Len())
+				conn.Write(zb.Bytes())
+				env.Probe("compressed_reply_in_shutdown_world")
+				continue
+			}
 			fmt.Fprintf(conn, "HTTP/1.1 200 OK\r\nX-Token: %s\r\nContent-Length: %d\r\n\r\n", tok, len(body))
 			conn.Write(body)
 		}
@@ -569,7 +583,7 @@ func init() {
 		Shape: func(ci any) string {
 			c := ci.(*c11Case)
 			var sb strings.Builder
-			fmt.Fprintf(&sb, "%s/cap%d/up%d/sd%d/drain%d", c.Listener, c.Cap, c.UptimeS, c.ShutdownMs, c.DrainS)
+			fmt.Fprintf(&sb, "%s/cap%d/up%d/sd%d/drain%d/gz%v", c.Listener, c.Cap, c.UptimeS, c.ShutdownMs, c.DrainS, c.GzipReply)
 			for _, cl := range c.Clients {
 				fmt.Fprintf(&sb, "/%s-%d-%d", cl.Kind, cl.DelayMs/1000, cl.StartMs)
 			}
